@@ -608,7 +608,7 @@ def multi_violation_cases(r, pool, n):
     import re as _re
     head = '[$default byte_order: "LittleEndian"]\n'
     pool = [c for c in pool if c.accept is False and c.text.startswith(head)
-            and c.text.count("[$default") == 1 and not c.rule.startswith("reserved")]
+            and c.text.count("[$default") == 1]
     out = []
     for i in range(n):
         parts, tags = [], []
@@ -619,6 +619,57 @@ def multi_violation_cases(r, pool, n):
             parts.append(body)
             tags.append(c.tag or c.rule)
         out.append(Case(head + "".join(parts), False, "multi-violation", None, tag=" + ".join(tags)))
+    return out
+
+
+def order_cases(r, words, n):
+    """One type definition per traversal of a pass, each breaking the rule that traversal
+    checks; random subsets in random definition order (plus the full sets in reverse order).
+    The front end reports traversal by traversal, so the order of the errors is NOT the order
+    of the definitions; the model must give the same order."""
+    import re as _re
+    camel = sorted(w for w in words if _re.fullmatch(r"[A-Z][a-zA-Z0-9]*[a-z][a-zA-Z0-9]*", w))
+    shouty = sorted(w for w in words if _re.fullmatch(r"[A-Z][A-Z_0-9]*[A-Z_][A-Z_0-9]*", w))
+    snake = sorted(w for w in words if _re.fullmatch(r"[a-z][a-z_0-9]*", w))
+    constraints = [
+        "struct Sb:\n  0 [+1]  UInt  x\nbits Bi:\n  0 [+8]  Sb  s\n",                    # [Structure, Type]
+        "struct Ef:\n  0 [+4]  UInt[4]  x\n",                                            # [ArrayType]
+        "struct Eb:\n  0 [+3]  UInt:12[2]  x\n",                                         # [Structure, ArrayType]
+        "struct Ia:\n  0 [+8]  UInt:8[][2]  x\n  0 [+1]  UInt  n\n  1 [+8]  UInt:8[n][2]  y\n",  # [ArrayType, ArrayType]
+        "bits Bt:\n  0 [+64]  UInt  a\n  64 [+1]  Flag  b\n",                            # [Structure]
+        "struct Rq:\n  0 [+9]  UInt  x\n  9 [+2]  UInt:8  y\n",                          # [Structure, Type]
+        "struct Rf:\n  0 [+1]  UInt  %s\n" % (snake[0] if snake else "int"),             # [Field]
+        "enum Ev:\n  %s = 1\n" % (shouty[0] if shouty else "NULL"),                      # [EnumValue]
+        "struct %s:\n  0 [+1]  UInt  x\n" % (camel[0] if camel else "Class"),            # [TypeDefinition]
+        "struct Sr:\n  0 [+1]  UInt  x\n  let z = x + 1\n  let y = Sr.z\n",              # [Expression] static refs
+        "enum Er:\n  [maximum_bits: 8]\n  AA = 256\n  BB = 1\n  CC = 300\n",             # [Enum]
+        "struct Gg:\n  0 [+8]  UInt  x\n  let a = x + 1\n  let b = x * x\n",             # [Expression] gate
+        "struct Pp(n: UInt:65):\n  0 [+1]  UInt  x\n",                                   # [RuntimeParameter]
+    ]
+    verify = [
+        "struct Be:\n  0 [+1]  UInt  x\n    [(zzz) foo: 1]\nenum Bv:\n  AA = 1\n    [(yyy) foo: 1]\n",     # [Attribute]
+        "struct Fs:\n  [fixed_size_in_bits: 16]\n  0 [+1]  UInt  x\n",                   # [Structure]
+        "enum Mb:\n  [maximum_bits: 65]\n  AA = 1\n",                                    # [Enum]
+        "external Xu:\n  [addressable_unit_size: 4]\n",                                  # [External]
+        "struct Bo:\n  0 [+2]  UInt  x\n    [byte_order: \"Null\"]\n  let v = x\n  2 [+4]  Float  f\n    [requires: true]\n",  # [Field]
+    ]
+    attrs = [
+        "struct Ta:\n  [maximum_bits: 8]\n  0 [+1]  UInt  x\n",                          # [TypeDefinition]
+        "struct Fa:\n  0 [+1]  UInt  x\n    [fixed_size_in_bits: 8]\n    [text_output: \"Maybe\"]\n",  # [Field]
+        "enum Va:\n  AA = 1\n    [text_output: \"Skip\"]\n",                             # [EnumValue]
+        "struct Tb:\n  struct Inner:\n    [is_signed: true]\n    0 [+1]  UInt  y\n      [frob: 1]\n  0 [+1]  UInt  x\n",
+    ]
+    early = ["struct Pa(n: UInt):\n  struct Inner(e: UInt):\n    0 [+1]  UInt  y\n  0 [+1]  UInt  x\n",
+             "enum Pe:\n  AA = 1\nstruct Pb(e: Pe:8, m: Int):\n  0 [+1]  UInt  x\n"]
+    head = '[$default byte_order: "LittleEndian"]\n'
+    out = []
+    for fam, blocks in (("constraints", constraints), ("verify", verify), ("attributes", attrs), ("early", early)):
+        out.append(Case(head + "".join(reversed(blocks)), False, "order:" + fam, None, tag="all, reversed"))
+        out.append(Case(head + "".join(blocks), False, "order:" + fam, None, tag="all, in traversal order"))
+        for _ in range(n if fam == "constraints" else max(2, n // 4)):
+            k = r.randint(2, min(5, len(blocks)))
+            sub = r.sample(blocks, k)
+            out.append(Case(head + "".join(sub), False, "order:" + fam, None, tag="%d random definitions" % k))
     return out
 
 
@@ -1275,7 +1326,8 @@ def run(tier):
     single = array_element_cases() + violation_cases(wsample + dropped)
     cases = (testdata_cases() + corpus_cases() + finding_cases() + valid_boundary_cases()
              + default_scope_cases() + gate_cases() + single
-             + multi_violation_cases(r, single, 120 if tier == "quick" else 1500))
+             + multi_violation_cases(r, single, 120 if tier == "quick" else 1500)
+             + order_cases(r, words, 40 if tier == "quick" else 400))
     # random valid modules and single mutations of them
     for i in range(n_rand):
         text, feats = rand_module(r)
